@@ -1055,6 +1055,68 @@ fn compile_context_bundle_for_run(
     })
 }
 
+/// Verification export: compile the context for a run and record the selection/compiled frames
+/// exactly as `run_session` does, without a provider.
+#[cfg(rip_verif)]
+pub(crate) fn verif_compile_and_record(
+    continuities: &ContinuityStore,
+    event_log: &EventLog,
+    snapshot_dir: &Path,
+    link: &ContinuityRunLink,
+    run_session_id: &str,
+    record: bool,
+) -> Result<Value, String> {
+    let outcome =
+        compile_context_bundle_for_run(continuities, event_log, snapshot_dir, link, run_session_id)?;
+    let ContextCompileOutcomeForRun { decision, compiled } = outcome;
+    let out = serde_json::json!({
+        "compiler_id": decision.compiler_id,
+        "compiler_strategy": decision.compiler_strategy,
+        "limits": decision.limits,
+        "compaction_checkpoint": decision.compaction_checkpoint,
+        "compaction_checkpoints": decision.compaction_checkpoints,
+        "resets": decision.resets,
+        "reason": decision.reason,
+        "bundle_artifact_id": compiled.bundle_artifact_id,
+        "from_seq": compiled.from_seq,
+        "from_message_id": compiled.from_message_id,
+        "items": compiled.items.iter().map(|item| item.value().clone()).collect::<Vec<_>>(),
+    });
+    if record {
+        let compiler_strategy = decision.compiler_strategy.clone();
+        let _ = continuities.append_context_selection_decided(
+            &link.continuity_id,
+            ContextSelectionDecidedPayload {
+                run_session_id: run_session_id.to_string(),
+                message_id: link.message_id.clone(),
+                compiler_id: decision.compiler_id,
+                compiler_strategy,
+                limits: decision.limits,
+                compaction_checkpoint: decision.compaction_checkpoint,
+                compaction_checkpoints: decision.compaction_checkpoints,
+                resets: decision.resets,
+                reason: decision.reason,
+                actor_id: link.actor_id.clone(),
+                origin: link.origin.clone(),
+            },
+        );
+        let _ = continuities.append_context_compiled(
+            &link.continuity_id,
+            ContextCompiledPayload {
+                run_session_id: run_session_id.to_string(),
+                bundle_artifact_id: compiled.bundle_artifact_id,
+                compiler_id: CONTEXT_COMPILER_ID_V1.to_string(),
+                compiler_strategy: decision.compiler_strategy,
+                from_seq: compiled.from_seq,
+                from_message_id: compiled.from_message_id,
+                actor_id: link.actor_id.clone(),
+                origin: link.origin.clone(),
+            },
+        );
+    }
+    Ok(out)
+}
+
 struct OpenResponsesRunContext<'a> {
     http: &'a reqwest::Client,
     config: &'a OpenResponsesConfig,
@@ -1602,9 +1664,20 @@ async fn emit_event(
     event_log: &EventLog,
 ) {
     let _ = sender.send(event.clone());
+    #[cfg(rip_verif)]
+    verif_emit_point("emit.published", &event);
     let mut guard = buffer.lock().await;
     guard.push(event.clone());
+    #[cfg(rip_verif)]
+    verif_emit_point("emit.recorded", &event);
     let _ = event_log.append(&event);
+}
+
+#[cfg(rip_verif)]
+fn verif_emit_point(name: &'static str, event: &Event) {
+    rip_kernel::verif::point(name, || {
+        serde_json::json!({"stream": event.stream_id(), "sk": event.stream_kind(), "seq": event.seq})
+    });
 }
 
 #[cfg(test)]
